@@ -153,14 +153,15 @@ def normalize_hostname(hostname, normalize_amp=True):
     hostname = hostname.strip().lower()
     hostname = CONTROL_CHARS_RE.sub("", hostname)
 
+    # NOTE: same order as in `normalize_url`: punycode first
+    hostname = decode_punycode_hostname(hostname)
+
     pattern = IRRELEVANT_SUBDOMAIN_AMP_RE if normalize_amp else IRRELEVANT_SUBDOMAIN_RE
 
     hostname = pattern.sub("", hostname)
 
     if normalize_amp and hostname.startswith("amp-"):
         hostname = hostname[4:]
-
-    hostname = decode_punycode_hostname(hostname)
 
     return hostname
 
